@@ -64,12 +64,22 @@ def _setup():
     _fresh()
 
 
+KW = {}       # {} : the global report; {'report': <own Report>} in the own-report phase
+
+
 def _fresh():
     cmds.clear_report()
-    cmds.contextualize_report(DEFS)
-    sb_cmds.run()
-    sb_cmds.clear_output()
-    sb_cmds.clear_input()
+    if KW:
+        # the global report holds another submission with its own queue and output: none of it may be touched
+        cmds.contextualize_report("print('global')\n")
+        sb_cmds.run()
+        sb_cmds.set_input(['GLOBAL-1', 'GLOBAL-2'])
+        from pedal.core.report import Report
+        KW['report'] = Report()
+    cmds.contextualize_report(DEFS, **KW)
+    sb_cmds.run(**KW)
+    sb_cmds.clear_output(**KW)
+    sb_cmds.clear_input(**KW)
 
 
 def CALLABLE(prompt):
@@ -157,46 +167,50 @@ class Model:
 def apply_real(op):
     k = op[0]
     if k == 'run':
-        sb_cmds.run(PROGS[op[1]])
+        sb_cmds.run(PROGS[op[1]], **KW)
     elif k == 'call':
-        sb_cmds.call(op[1])
+        sb_cmds.call(op[1], **KW)
     elif k == 'eval':
-        sb_cmds.evaluate(op[1])
+        sb_cmds.evaluate(op[1], **KW)
     elif k == 'run_inputs':
-        sb_cmds.run(PROGS[op[1]], inputs=list(op[2]))
+        sb_cmds.run(PROGS[op[1]], inputs=list(op[2]), **KW)
     elif k == 'call_inputs':
-        sb_cmds.call(op[1], inputs=op[2])
+        sb_cmds.call(op[1], inputs=op[2], **KW)
     elif k == 'clear_output':
-        sb_cmds.clear_output()
+        sb_cmds.clear_output(**KW)
     elif k == 'set_input' and isinstance(op[1], int):
-        sb_cmds.set_input(op[1])
+        sb_cmds.set_input(op[1], **KW)
     elif k == 'set_input_tuple':
-        sb_cmds.set_input(tuple(op[1]))
+        sb_cmds.set_input(tuple(op[1]), **KW)
     elif k == 'set_input_callable':
-        sb_cmds.set_input(CALLABLE)
+        sb_cmds.set_input(CALLABLE, **KW)
     elif k == 'run_before_after':
-        sb_cmds.get_sandbox().run(PROGS[op[1]], before="print('B')", after="print('A')")
+        sb_cmds.get_sandbox(**KW).run(PROGS[op[1]], before="print('B')", after="print('A')")
     elif k == 'call_target':
-        sb_cmds.call(op[1], target='kept')
+        sb_cmds.call(op[1], target='kept', **KW)
     elif k == 'set_input':
-        sb_cmds.set_input(op[1] if isinstance(op[1], str) else list(op[1]))
+        sb_cmds.set_input(op[1] if isinstance(op[1], str) else list(op[1]), **KW)
     elif k == 'set_input_noclear':
-        sb_cmds.set_input(list(op[1]), clear=False)
+        sb_cmds.set_input(list(op[1]), clear=False, **KW)
     elif k == 'queue_input':
-        sb_cmds.queue_input(*op[1:])
+        sb_cmds.queue_input(*op[1:], **KW)
     elif k == 'clear_input':
-        sb_cmds.clear_input()
+        sb_cmds.clear_input(**KW)
 
 
 EXEC = ('run', 'call', 'eval', 'run_inputs', 'call_inputs', 'run_before_after', 'call_target')
 
 
-def make_body(max_ops):
+def make_body(max_ops, own_report=False):
     def body(ctx):
         n = ctx.choose(max_ops, 'n') + 1
         hist = [OPS[ctx.choose(len(OPS), 'op%d' % i)] for i in range(n)]
+        if own_report:
+            KW['report'] = None
+        else:
+            KW.clear()
         _fresh()
-        sb = sb_cmds.get_sandbox()
+        sb = sb_cmds.get_sandbox(**KW)
         m = Model()
         nctx0 = len(sb._context)
         execs = [op for op in hist if op[0] in EXEC]
@@ -209,9 +223,9 @@ def make_body(max_ops):
                          history=hist[:i + 1], message=str(e)[:200])
                 return
             m.apply(op)
-            real_raw = sb_cmds.get_raw_output()
-            real_lines = list(sb_cmds.get_output())
-            real_inputs = sb_cmds.get_input()
+            real_raw = sb_cmds.get_raw_output(**KW)
+            real_lines = list(sb_cmds.get_output(**KW))
+            real_inputs = sb_cmds.get_input(**KW)
             real_inputs = real_inputs if callable(real_inputs) else list(real_inputs)
             sig = None
             if real_raw != m.raw:
@@ -236,6 +250,12 @@ def make_body(max_ops):
             if sig:
                 ctx.fail(sig, history=hist[:i + 1], **det)
                 break
+        if own_report:
+            g_in = sb_cmds.get_input()
+            if list(g_in) != ['GLOBAL-1', 'GLOBAL-2'] or sb_cmds.get_raw_output() != 'global\n':
+                ctx.fail({'symptom': 'operations with report=own changed the global sandbox'}, history=hist,
+                         global_inputs=list(g_in), global_output=sb_cmds.get_raw_output())
+            KW.clear()
         canon = repr((m.raw, m.lines, 'callable' if callable(m.inputs) else m.inputs, len(m.ctx)))
         ctx.observe(canon)
         ctx.set_sample(hist)
@@ -252,4 +272,7 @@ def bounds(tier):
 
 def phases(tier):
     return [Phase('io-histories', make_body(3 if tier == 'quick' else 4), setup=_setup, chunk=300,
-                  describe='all operation histories up to the depth bound on one sandbox')]
+                  describe='all operation histories up to the depth bound on one sandbox'),
+            Phase('own-report', make_body(2 if tier == 'quick' else 3, own_report=True), setup=_setup, chunk=300,
+                  describe='histories <=2 with report=<caller-owned Report> on every command; the global sandbox '
+                           '(own queue and output) stays untouched')]
